@@ -142,9 +142,12 @@ MsgFor(p) == [type |-> p.type, code |-> CodeOf(p.type), mode |-> "reg", w |-> Le
 RECURSIVE SeqsUpTo(_, _)
 SeqsUpTo(S, n) == IF n = 0 THEN {<<>>}
                   ELSE SeqsUpTo(S, n - 1) \cup {Append(s, x) : s \in {t \in SeqsUpTo(S, n - 1) : Len(t) = n - 1}, x \in S}
-Composites(inner) == {[type |-> "CompositePack", h |-> h, f |-> s] : h \in Headers, s \in SeqsUpTo(inner, MaxItems)}
-\* one fixed header for the nested level keeps the world small
+\* containers take their own header from the headers of one project code (both forms, every kind/node):
+\* the project code of a container adds nothing the leaf packs do not already exercise
 H0 == CHOOSE h \in Headers : TRUE
+HeadersC == {h \in Headers : h.Pcode = H0.Pcode}
+Composites(inner) == {[type |-> "CompositePack", h |-> h, f |-> s] : h \in HeadersC, s \in SeqsUpTo(inner, MaxItems)}
+\* one fixed header for the nested level keeps the world small
 Nested == {[type |-> "CompositePack", h |-> H0, f |-> <<c>>] : c \in Composites(LeafPacks)}
 Universe == LeafPacks \cup Composites(LeafPacks) \cup Nested
 
@@ -187,7 +190,8 @@ ZipOf(type, h, minsize) ==
 
 MCBuild ==
   /\ msg = None /\ box = None
-  /\ \E kind \in {"composite", "zip", "lszip"}, h \in Headers, minsize \in {-1, 0, 1000} :
+  /\ \E kind \in {"composite", "zip", "lszip"}, h \in HeadersC, minsize \in {-1, 0, 1000} :
+       (kind = "composite" => minsize = -1) /\
        LET c == CASE kind = "composite" -> [type |-> "CompositePack", h |-> h, f |-> its]
                   [] kind = "zip"       -> ZipOf("ZipPack", h, minsize)
                   [] kind = "lszip"     -> ZipOf("LogSinkZipPack", h, minsize)
